@@ -26,7 +26,7 @@ from .. import sym, lift, setalg
 from . import zob, clocks
 from .c03 import piece_case
 from .movegen import SELF, STM, NSTM, PIECE, FILE, colors
-from .common import B, loc, enum_values, in_set3
+from .common import B, loc, enum_values, in_set3, square_equals3, option_is_some_of3
 
 COLOR = "cozy_chess_types::color::Color"
 BLACK = ("enum", COLOR, "Black")
@@ -132,6 +132,23 @@ def decisions(L, p, moved):
         r = in_set3(enum_values(L.f, lifted, ("rank", TO), RANK), {3, 4})
         if r is not None and len(enum_values(L.f, lifted, ("rank", TO), RANK)) < 8:
             d["to45"] = r
+    if "epcap" not in d and d.get("ep_some") is True:
+        # the same comparison spelled as file(to) == ep file and rank(to) == 6th relative rank
+        r3 = square_equals3(lifted, EPSQ, TO)
+        if r3 is not None:
+            d["epcap"] = r3
+    if "epcap" not in d:
+        # ... or as `en_passant == Some(to.file())` together with the rank test
+        sf = option_is_some_of3(lifted, EPGET, ("file", TO))
+        rk = None
+        for e_, v_ in lifted:
+            if e_[0] == "bin" and e_[1] in ("Eq", "Ne") and {e_[2], e_[3]} == {("relrank", 5, STM), ("rank", TO)} and isinstance(v_, int):
+                rk = (e_[1] == "Eq") == bool(v_)
+        both = None if (sf is None and rk is None) else (False if (sf is False or rk is False) else (True if (sf and rk) else None))
+        if both is not None:
+            d["epcap"] = both
+            if both:
+                d["ep_some"] = True
     if d.get("ep_some") is False and "epcap" not in d:
         d["epcap"] = False          # no en-passant square: nothing to compare the destination with
     return d
